@@ -374,7 +374,7 @@ func (s *sim) feed(j int, a arrival) {
 					r.note += "restart-detected "
 				}
 			case s.unrel && back:
-				if k == 0 && s.behind >= s.buf+1 {
+				if k == 0 && s.behind >= s.buf+1 && !s.sc.Strict {
 					// BufferSize+1 consecutive stale arrivals: a restart
 					// as far as a receiver can tell
 					callSilent = true
@@ -586,9 +586,14 @@ func (s *sim) finish() {
 			}
 		case 2:
 			if !del && !s.exempt[id] {
+				if s.sc.Strict && !s.blind {
+					s.j = int(s.firstArr[id])
+					s.fail("c14/o2-literal packet", "source packet %d (seq %d) arrived displaced by %d sequence positions (< BufferSize %d) while an older gap was still open, and was never handed to the application",
+						id, s.pl.src[id].seq, s.maxPosBefore[id]-s.pl.src[id].pos, s.buf)
+				}
 				s.res.Probes["o2_literal_miss"]++
 				if s.res.Probes["o2_literal_miss"] == 1 {
-					s.recs = append(s.recs, rec{kind: 'n', t: s.now(), note: fmt.Sprintf("literal-miss id=%d seq=%d displaced_by=%d first_overtaken_at=%d", id, s.pl.src[id].seq, s.maxPosBefore[id]-s.pl.src[id].pos, s.a1[id])})
+					s.recs = append(s.recs, rec{kind: 'n', t: s.res.SimNS, note: fmt.Sprintf("literal-miss id=%d seq=%d displaced_by=%d first_overtaken_at=%d", id, s.pl.src[id].seq, s.maxPosBefore[id]-s.pl.src[id].pos, s.a1[id])})
 				}
 			} else if del {
 				s.res.Probes["o2_literal_delivered"]++
